@@ -8,6 +8,7 @@ from __future__ import annotations
 import json
 
 from vlib import core, opskit
+from vlib import translate
 
 RULE = ("random populations (1-5 qubits, 1-4 layers, 2-8 individuals; duplicates, relatives sharing layer prefixes, hand-built parameterless last layers, "
         "1-qubit populations, incoming stale/duplicate representative lists) x random operator sequences of length 1-12 (each selection directly preceded by a speciation) "
@@ -31,6 +32,7 @@ def specs_for(ctx):
 
 
 def run(ctx):
+    translate.check_link(ctx, "C10")  # regenerate Gallina from /repo's current speciation/selection/mutation.py; link lemmas coq/link/C10Link.v
     ctx.rule = RULE
     if not opskit.selftest_random():
         raise RuntimeError("logging Random does not reproduce random.Random")
@@ -39,6 +41,8 @@ def run(ctx):
 
 
 def replay(ctx, payload):
+    if translate.is_link_replay(payload) and not payload.get("failing_input"):
+        return translate.replay(ctx, payload, "C10")
     spec = payload.get("case") or payload.get("failing_input")
     spec = {k: v for k, v in spec.items() if k != "failing_step"}
     kept = opskit.drive(ctx, "C10_replay", [spec], opskit.oracle_c10, None, "check_case", "model-vs-impl")
